@@ -42,9 +42,13 @@ META = {
 }
 
 NAMES = ['na', 'nb', 'nc']
+LNAMES = ['la', 'lb']
+ALLNAMES = NAMES + LNAMES
 API_KINDS = ['group', 'env']
-TEX_KINDS = ['brace', 'begingroup', 'center', 'quote', 'math', 'cell', 'textbf', 'mbox']
-ARG_KINDS = ('textbf', 'mbox')
+TEX_KINDS = ['brace', 'begingroup', 'center', 'quote', 'math', 'cell', 'textbf', 'mbox', 'parenmath', 'displaymath',
+             'equation', 'itemize', 'minipage', 'footnote']
+MATH_KINDS = ('math', 'parenmath', 'displaymath', 'equation')
+ARG_KINDS = ('textbf', 'mbox', 'footnote')
 
 
 def generate(seed, tier):
@@ -58,7 +62,8 @@ def generate(seed, tier):
     weights = {'OPEN': r.choice([1, 2, 3]), 'CLOSE': r.choice([1, 2, 3]), 'DEF_LOCAL': r.choice([0, 2, 3]),
                'DEF_GLOBAL': r.choice([0, 1, 2]), 'LET': r.choice([0, 1, 2]), 'CATCODE': r.choice([0, 1, 2]),
                'SETIF': r.choice([0, 1]), 'STEP': r.choice([0, 1]), 'PROBE': 3, 'CELLSEP': r.choice([0, 1]),
-               'LETCHAR': r.choice([0, 1, 2]), 'DECL': r.choice([0, 1, 2])}
+               'LETCHAR': r.choice([0, 1, 2]), 'DECL': r.choice([0, 1, 2]), 'VERB': r.choice([0, 1]), 'ROWSEP': r.choice([0, 1]),
+               'SETCOUNTER': r.choice([0, 1])}
     kinds = [k for k, w in weights.items() for _ in range(w)]
     while len(ops) < n:
         o = r.choice(kinds)
@@ -77,18 +82,20 @@ def generate(seed, tier):
             ops.append({'op': 'CLOSE'})
             stack.pop()
             depth -= 1
-        elif o == 'CELLSEP':
-            ops.append({'op': 'CELLSEP'})
+        elif o in ('CELLSEP', 'ROWSEP', 'VERB'):
+            ops.append({'op': o})
+        elif o == 'SETCOUNTER':
+            ops.append({'op': 'STEP', 'how': r.choice(['set', 'add']), 'n': r.randint(0, 9)})
         elif o in ('DEF_LOCAL', 'DEF_GLOBAL'):
             ops.append({'op': o, 'name': r.choice(NAMES), 'id': ident})
             ident += 1
         elif o == 'LET':
-            a, b = r.sample(NAMES, 2)
+            a, b = r.sample(ALLNAMES if r.random() < 0.4 else NAMES, 2)
             ops.append({'op': 'LET', 'dst': a, 'src': b})
         elif o == 'CATCODE':
             ops.append({'op': 'CATCODE', 'code': r.choice([11, 12, 11, 12, 13])})
         elif o == 'LETCHAR':
-            ops.append({'op': 'LETCHAR', 'dst': r.choice(['la', 'lb']), 'ch': r.choice('uvw')})
+            ops.append({'op': 'LETCHAR', 'dst': r.choice(LNAMES + LNAMES + NAMES), 'ch': r.choice('uvw')})
         elif o == 'DECL':
             ops.append({'op': 'DECL', 'name': r.choice(['small', 'itshape', 'bfseries', 'large', 'centering'])})
         elif o == 'SETIF':
@@ -96,7 +103,7 @@ def generate(seed, tier):
         elif o == 'STEP':
             ops.append({'op': 'STEP'})
         else:
-            ops.append({'op': 'PROBE', 'what': r.choice(NAMES + ['cat', 'if', 'counter', 'all'])})
+            ops.append({'op': 'PROBE', 'what': r.choice(NAMES + LNAMES + ['cat', 'if', 'counter', 'all'])})
         if r.random() < 0.3:
             ops.append({'op': 'PROBE', 'what': r.choice(NAMES + ['cat', 'all'])})
     while depth:
@@ -130,7 +137,7 @@ def balance(ops):
 
 class Model(object):
     def __init__(self):
-        self.frames = [{'macros': dict((n, '%s0' % n) for n in NAMES), 'lets': {}, 'cats': {'@': 12}, 'kind': None}]
+        self.frames = [{'macros': dict((n, '%s0' % n) for n in ALLNAMES), 'lets': {}, 'cats': {'@': 12}, 'kind': None}]
         self.ifstate = False
         self.counter = 0
         self.info = {}
@@ -153,7 +160,7 @@ class Model(object):
         if len(self.frames) >= 4:
             self.info['nested_depth_ge3'] = 1
         kinds = [f['kind'] for f in self.frames[1:]]
-        envs = ('center', 'quote', 'env')
+        envs = ('center', 'quote', 'env', 'itemize', 'minipage', 'equation')
         for a, b in zip(kinds, kinds[1:]):
             if a in ('brace', 'begingroup', 'group') and b in envs:
                 self.info['env_inside_group'] = 1
@@ -251,7 +258,7 @@ def run_api(ops):
     doc = TeXDocument()
     ctx = doc.context
     m = Model()
-    for n in NAMES:
+    for n in ALLNAMES:
         ctx.newdef(n, '', '%s0' % n, local=False)
     ctx.newif('ifsw')
     ctx.newcounter('cx')
@@ -300,20 +307,24 @@ def run_api(ops):
             m.ifstate = op['value']
             m.frames[-1]['setif'] = 1
         elif o == 'STEP':
-            ctx.counters['cx'].addtocounter(1)
-            m.counter += 1
+            if op.get('how') == 'set':
+                ctx.counters['cx'].setcounter(op['n'])
+                m.counter = op['n']
+            else:
+                ctx.counters['cx'].addtocounter(op.get('n', 1) if op.get('how') == 'add' else 1)
+                m.counter += op.get('n', 1) if op.get('how') == 'add' else 1
             m.frames[-1]['step'] = 1
         # invariants after every op
         if len(ctx.contexts) - base_depth != len(m.frames) - 1:
             raise ApiViolation('C04|api|depth', {'step': k, 'op': op, 'real': len(ctx.contexts) - base_depth, 'model': len(m.frames) - 1})
-        for n in NAMES:
+        for n in ALLNAMES:
             cls = ctx[n]
             got = ''.join(str(t) for t in (getattr(cls, 'definition', None) or []))
             if got != m.lookup(n):
                 cls_ = 'local-leaked' if o == 'CLOSE' else ('lookup' if o in ('PROBE', 'OPEN') else o.lower())
                 raise ApiViolation('C04|api|macro|%s' % cls_, {'step': k, 'op': op, 'name': n, 'real': got, 'model': m.lookup(n),
                                                                'frames': [sorted(f['macros'].items()) for f in m.frames]})
-        for n in ('la', 'lb'):
+        for n in ALLNAMES:
             tok = EscapeSequence(n)
             got = ctx.get_let(tok)
             exp = m.get_let(n)
@@ -339,11 +350,14 @@ def run_api(ops):
 # transport 2: TeX source
 
 OPEN_TEX = {'brace': '{', 'begingroup': '\\begingroup ', 'center': '\\begin{center}', 'quote': '\\begin{quote}', 'math': '$ ',
-            'cell': '\\begin{tabular}{ll}', 'textbf': '\\textbf{', 'mbox': '\\mbox{'}
+            'cell': '\\begin{tabular}{ll}', 'textbf': '\\textbf{', 'mbox': '\\mbox{', 'parenmath': '\\( ', 'displaymath': '\\[ ',
+            'equation': '\\begin{equation}', 'itemize': '\\begin{itemize}\\item ', 'minipage': '\\begin{minipage}{3cm}',
+            'footnote': '\\footnote{'}
 CLOSE_TEX = {'brace': '}', 'begingroup': '\\endgroup ', 'center': '\\end{center}', 'quote': '\\end{quote}', 'math': '$',
-             'cell': '\\end{tabular}', 'textbf': '}', 'mbox': '}'}
+             'cell': '\\end{tabular}', 'textbf': '}', 'mbox': '}', 'parenmath': '\\)', 'displaymath': '\\]',
+             'equation': '\\end{equation}', 'itemize': '\\end{itemize}', 'minipage': '\\end{minipage}', 'footnote': '}'}
 PREAMBLE = ('\\documentclass{article}\\newcounter{cx}\\newif\\ifsw\\makeatletter\\def\\pr@be{L}\\makeatother\\def\\pr{O}'
-            + ''.join('\\def\\%s{%s0}' % (n, n) for n in NAMES) + '\\begin{document}')
+            + ''.join('\\def\\%s{%s0}' % (n, n) for n in ALLNAMES) + '\\begin{document}')
 
 
 def compile_tex(ops):
@@ -368,6 +382,9 @@ def compile_tex(ops):
             if c == 13:
                 src.pop()
                 exp.pop()
+        elif what in LNAMES:
+            src.append('x\\%s ' % what)
+            exp.append('x' + (m.get_let(what) or m.lookup(what)))
         elif what == 'if':
             src.append('x\\ifsw T\\else F\\fi ')
             exp.append('xT' if m.ifstate else 'xF')
@@ -375,7 +392,7 @@ def compile_tex(ops):
             src.append('x\\arabic{cx} ')
             exp.append('x%d' % m.counter)
         else:
-            for w in NAMES + ['cat', 'if', 'counter']:
+            for w in NAMES + LNAMES + ['cat', 'if', 'counter']:
                 probe(w)
 
     for op in ops:
@@ -384,14 +401,14 @@ def compile_tex(ops):
             k = op['kind']
             if k == 'cell' and 'cell' in stack:
                 k = 'brace'
-            if in_math and k in ('center', 'quote', 'cell', 'math', 'textbf', 'mbox'):
+            if in_math and k != 'begingroup':
                 k = 'brace'
             stack.append(k)
             src.append(OPEN_TEX[k])
             m.open(k)
             if k in ARG_KINDS:
                 in_arg += 1
-            if k == 'math':
+            if k in MATH_KINDS:
                 in_math += 1
         elif o == 'CLOSE':
             if not stack:
@@ -401,7 +418,7 @@ def compile_tex(ops):
             m.close()
             if k in ARG_KINDS:
                 in_arg -= 1
-            if k == 'math':
+            if k in MATH_KINDS:
                 in_math -= 1
         elif o == 'CELLSEP':
             if stack and stack[-1] == 'cell':
@@ -415,8 +432,25 @@ def compile_tex(ops):
             src.append('\\gdef\\%s{%s%d}' % (op['name'], op['name'], op['id']))
             m.def_global(op['name'], op['id'])
         elif o == 'LET':
+            if op['dst'] in LNAMES or op['src'] in LNAMES:
+                continue        # source-level \let of a name that may be a character alias: the tokenizer substitutes first
             src.append('\\let\\%s=\\%s ' % (op['dst'], op['src']))
             m.let(op['dst'], op['src'])
+        elif o == 'LETCHAR':
+            if op['dst'] not in LNAMES or in_math or in_arg or m.get_let(op['dst']) is not None:
+                continue        # (a name that already is a character alias is substituted by the tokenizer before \let sees it)
+            src.append('\\let\\%s=%s ' % (op['dst'], op['ch']))
+            m.letchar(op['dst'], op['ch'])
+        elif o == 'VERB':
+            if in_arg or in_math:
+                continue
+            src.append('\\verb|v@| ')
+            exp.append('v@')
+        elif o == 'ROWSEP':
+            if stack and stack[-1] == 'cell':
+                src.append(' \\\\ ')
+                m.close()
+                m.open('cell')
         elif o == 'DECL':
             if in_math or not stack:
                 continue        # text declarations only, and only inside some group (a top-level one lasts to the end)
@@ -432,8 +466,15 @@ def compile_tex(ops):
             m.ifstate = op['value']
             m.frames[-1]['setif'] = 1
         elif o == 'STEP':
-            src.append('\\stepcounter{cx}')
-            m.counter += 1
+            if op.get('how') == 'set':
+                src.append('\\setcounter{cx}{%d}' % op['n'])
+                m.counter = op['n']
+            elif op.get('how') == 'add':
+                src.append('\\addtocounter{cx}{%d}' % op['n'])
+                m.counter += op['n']
+            else:
+                src.append('\\stepcounter{cx}')
+                m.counter += 1
             m.frames[-1]['step'] = 1
         elif o == 'PROBE':
             probe(op['what'])
@@ -549,7 +590,7 @@ def execute(record):
         try:
             if tr == 'api':
                 api_ops = [dict(o, kind={'center': 'center', 'quote': 'quote', 'textbf': 'textbf', 'mbox': 'mbox'}.get(o.get('kind'), 'group'))
-                           if o['op'] == 'OPEN' else o for o in ops if o['op'] != 'CELLSEP']
+                           if o['op'] == 'OPEN' else o for o in ops if o['op'] not in ('CELLSEP', 'ROWSEP', 'VERB')]
                 m, st = run_api(api_ops)
                 states.extend(st)
                 info.update(m.info)
